@@ -82,7 +82,9 @@ func vfActivity(typ string, nActors, nObj, objMode int, objType string) *vfAct {
 func (w *vfWorld) vfGetDefault(id *url.URL) vocab.Type {
 	idp := streams.NewJSONLDIdProperty()
 	idp.Set(id)
-	switch vfUFInt("storedKind", id.String(), 0, 4) {
+	switch vfUFInt("storedKind", id.String(), 0, 5) {
+	case 5:
+		return nil // nothing stored under this id
 	case 1:
 		c := vfCollection(w.colItems)
 		c.SetJSONLDId(idp)
@@ -102,10 +104,22 @@ func (w *vfWorld) vfGetDefault(id *url.URL) vocab.Type {
 		f := streams.NewActivityStreamsFollow()
 		f.SetJSONLDId(idp)
 		ap := streams.NewActivityStreamsActorProperty()
-		ap.AppendIRI(vfURL("stored.follow.actor"))
+		fa := vfURL("stored.follow.actor")
+		ap.AppendIRI(fa)
 		f.SetActivityStreamsActor(ap)
 		op := streams.NewActivityStreamsObjectProperty()
-		op.AppendIRI(vfURL("stored.follow.object"))
+		n := w.storedFollowN
+		if n == 0 {
+			n = 1
+		}
+		w.storedFollowSeen = true
+		w.storedFollowActor = fa.String()
+		w.storedFollowObjects = nil
+		for i := 0; i < n; i++ {
+			fo := vfURL("stored.follow.object")
+			op.AppendIRI(fo)
+			w.storedFollowObjects = append(w.storedFollowObjects, fo.String())
+		}
 		f.SetActivityStreamsObject(op)
 		return f
 	case 4:
@@ -118,6 +132,34 @@ func (w *vfWorld) vfGetDefault(id *url.URL) vocab.Type {
 	}
 	n := streams.NewActivityStreamsNote()
 	n.SetJSONLDId(idp)
+	if w.likesKind != 0 {
+		var pre []*url.URL
+		for i := 0; i < w.likesPre; i++ {
+			pre = append(pre, vfURL("likes.pre"))
+		}
+		lp := streams.NewActivityStreamsLikesProperty()
+		sp := streams.NewActivityStreamsSharesProperty()
+		if w.likesKind == 1 {
+			lp.SetActivityStreamsCollection(vfCollection(pre))
+			sp.SetActivityStreamsCollection(vfCollection(pre))
+		} else {
+			mk := func() vocab.ActivityStreamsOrderedCollection {
+				oc := streams.NewActivityStreamsOrderedCollection()
+				if pre != nil {
+					oi := streams.NewActivityStreamsOrderedItemsProperty()
+					for _, u := range pre {
+						oi.AppendIRI(u)
+					}
+					oc.SetActivityStreamsOrderedItems(oi)
+				}
+				return oc
+			}
+			lp.SetActivityStreamsOrderedCollection(mk())
+			sp.SetActivityStreamsOrderedCollection(mk())
+		}
+		n.SetActivityStreamsLikes(lp)
+		n.SetActivityStreamsShares(sp)
+	}
 	return n
 }
 
